@@ -46,6 +46,7 @@ def run_case(chk, r, root, n, in_parts, npart, mode, comp, prior, dup, tag):
             pn = {"smaller": max(1, npart - 1), "larger": npart + 3}[prior]
             dd.from_pandas(make_frame(r, 3 * pn, False), npartitions=1).pack_partitions_to_parquet(path, filesystem=fs, npartitions=pn, p=6)
         ddf = dd.from_pandas(df, npartitions=in_parts)
+        mark_opens, mark_moves = len(fs.opens), len(fs.moves)
         tf = packfs.tempdir_format(mode, work)
         for d in ("scratch_u", "scratch_p"):
             os.makedirs(os.path.join(work, d), exist_ok=True)      # the user's scratch area exists beforehand
@@ -91,10 +92,24 @@ def run_case(chk, r, root, n, in_parts, npart, mode, comp, prior, dup, tag):
                 chk.violation(f"pack_to_parquet/not-hilbert-ordered/{name}", dict(rep, keys=keys[:30]), size=n); return
         if len(parts) != m or any(len(p_) == 0 for p_ in parts):
             chk.violation("pack_to_parquet/partition-files-and-partitions-disagree", dict(rep, files=m, partitions=len(parts)), size=n); return
-        # compaction against the Lean model: which output partitions were non-empty is read off the log
-        writes = sorted({int(c[1].rsplit("part.", 1)[1].split(".")[0]) for c in fs.calls
-                         if c[0] == "open" and "/out.parq/part." in c[1] and c[1].endswith(".parquet") and "/part." in c[1]
-                         and c[1].count("part.") == 1})
+        # renumbering against the Lean model `PackFS`: the non-empty output partitions are the part files written (mode 'wb') into the
+        # dataset directory by the concatenation step; the moves the implementation made must be exactly the model's, in its order
+        def part_no(pth):
+            base = os.path.basename(pth)
+            return int(base.split(".")[1]) if base.startswith("part.") and base.endswith(".parquet") and os.path.dirname(pth) == path else None
+        # (a prior dataset was written through the same filesystem object: only the calls of the last run count)
+        non_empty = sorted({part_no(pth) for pth, md in fs.opens[mark_opens:] if "w" in md and part_no(pth) is not None})
+        made = [(part_no(a), part_no(b)) for a, b in fs.moves[mark_moves:] if part_no(a) is not None and part_no(b) is not None]
+        out_model = untok(drive([f"packfs {tok(non_empty)}"])[0])
+        if not isinstance(out_model, list):
+            chk.tie_broken(f"correspondence C10 renumbering: model rejects packfs {non_empty}")
+        else:
+            model_moves = [tuple(mv) for mv in out_model[0]]
+            model_final = sorted(e[0] for e in out_model[1])
+            if made != model_moves or model_final != list(range(m)):
+                chk.violation(f"pack_to_parquet/renumbering-differs-from-model/{mode}",
+                              dict(rep, non_empty_partitions=non_empty, moves_made=made, model_moves=model_moves, final_parts=m), size=n); return
+            chk.count("renumbering:moves=" + str(min(len(made), 3)) + ("+" if len(made) > 3 else ""))
         chk.nontriv(hash((tag, n, in_parts, npart, mode, comp, prior, dup)))
         chk.count("mode:" + mode); chk.count("empty-output-partitions:" + ("yes" if m < npart else "no")); chk.count("prior:" + str(prior))
     finally:
